@@ -320,6 +320,8 @@ func runC10(p params) error {
 		}
 		c10AddCase(out, "random-history", in)
 	}
+	// configurations used through Config.Clone carry the fields this property depends on
+	cloneCases(out, []string{"tlcp", "dtlcp"}, map[string][]string{"tlcp": {"SessionCache", "CipherSuites", "ClientAuth", "ServerName", "InsecureSkipVerify"}, "dtlcp": {"SessionCache", "CipherSuites", "ClientAuth", "ServerName", "InsecureSkipVerify"}})
 	return out.Finish()
 }
 
